@@ -288,6 +288,17 @@ def run(ctx):
         finally:
             shutil.rmtree(tmp, ignore_errors=True)
     sharded_and_obstructed(ctx)
+    # downscaler selection (model: Pipeline.resolveMethod)
+    from neuroglancer_scripts import downscaling
+    names = {"AveragingDownscaler": "average", "MajorityDownscaler": "majority", "StridingDownscaler": "stride"}
+    for method in ("auto", "average", "majority", "stride"):
+        for ty in ("image", "segmentation"):
+            try:
+                got = names.get(type(downscaling.get_downscaler(method, {"type": ty}, {})).__name__, "?")
+            except Exception as exc:  # noqa
+                got = type(exc).__name__
+            reqs.append(f"resolve-method {method} {ty}")
+            meta.append(({"method": method, "info_type": ty}, got))
     if ctx.driver_ok and reqs:
         for rep, (desc, impl) in zip(core.driver_batch(reqs), meta):
             if rep != impl:
